@@ -15,6 +15,7 @@ SCHEMA = {
     "mypy.nodes.Argument": {"variable": "mp_nodes.Var", "kind": "ArgKind", "pos_only": "bool",
                             "initializer": "mp_nodes.Expression | None", "type_annotation": "mp_types.Type | None"},
     "mypy.nodes.NameExpr": {"name": "str", "fullname": "str"},
+    "mypy.nodes.MypyFile": {"name": "str", "fullname": "str", "path": "str"},
     "mypy.nodes.IntExpr": {"value": "int"},
     "mypy.nodes.StrExpr": {"value": "str"},
     "mypy.nodes.FloatExpr": {"value": "float"},
@@ -22,12 +23,28 @@ SCHEMA = {
                        "type": "mp_types.Type | None", "explicit_self_type": "bool", "is_inferred": "bool"},
 }
 
+SCHEMA.update({
+    "_griffe.expressions.Expr": {"canonical_path": "str", "canonical_name": "str"},
+    "_griffe.expressions.ExprSubscript": {"slice": "griffe.Expr | str", "left": "griffe.Expr | str"},
+    "_griffe.expressions.ExprTuple": {"elements": "list[griffe.Expr | str]"},
+    "_griffe.expressions.ExprList": {"elements": "list[griffe.Expr | str]"},
+    "_griffe.expressions.ExprBoolOp": {"values": "list[griffe.Expr | str]"},
+    "_griffe.expressions.ExprBinOp": {"left": "griffe.Expr | str", "right": "griffe.Expr | str"},
+})
+
+# assumed result shapes of external functions (otherwise their results are unconstrained values)
+EXTERNAL_RETURNS = {
+    "griffe.docstrings.utils.parse_annotation": "griffe.Expr | str",
+    "_griffe.docstrings.utils.parse_docstring_annotation": "griffe.Expr | str",
+}
+
 # un-annotated instance attributes of repo classes (shape = what the constructor stores)
 SCHEMA.update({
     "safeds_stubgen.stubs_generator._stub_string_generator.StubsStringGenerator": {
         "api": "API", "naming_convention": "NamingConvention", "reexport_module_id": "str"},
     "safeds_stubgen.docstring_parsing._docstring_parser.DocstringParser": {
-        "_DocstringParser__cached_node": "str | None", "_DocstringParser__cached_docstring": "griffe.dataclasses.Docstring | None"},
+        "_DocstringParser__cached_node": "str | None", "_DocstringParser__cached_docstring": "griffe.dataclasses.Docstring | None",
+        "parser": "griffe.Parser"},
     "safeds_stubgen.api_analyzer._ast_visitor.MyPyAstVisitor": {"mypy_file": "mp_nodes.MypyFile | None"},
     "safeds_stubgen.api_analyzer._api.QualifiedImport": {"qualified_name": "str", "alias": "str | None"},
 })
